@@ -343,3 +343,347 @@ def native_join_sql(a_name: str, a_cols: Sequence[str], b_name: str, b_cols: Seq
     if pairs:
         sql += " ON " + " AND ".join('a."%s" = b."%s"' % (ca, cb) for ca, cb in pairs)
     return sql
+
+
+# --------------------------------------------------------------------------------------------------
+# groups and group aggregates (C09, C27, C05)
+# --------------------------------------------------------------------------------------------------
+
+
+def key_of(row: Sequence[Any], idx: Sequence[int]) -> Tuple:
+    """Grouping identity of a row: null is a key value of its own, 1 == 1.0."""
+    return tuple(C._cell_key(row[i]) for i in idx)
+
+
+def distinct_keys(cols: Sequence[str], rows: Sequence[Sequence[Any]], by: Sequence[str]) -> List[Tuple[Any, ...]]:
+    """Distinct combinations of the values of columns `by` (first-occurrence order), null a value of its own."""
+    idx = [list(cols).index(c) for c in by]
+    seen: Dict[Tuple, Tuple] = {}
+    for r in rows:
+        seen.setdefault(key_of(r, idx), tuple(r[i] for i in idx))
+    return list(seen.values())
+
+
+class Anything:
+    """A reference cell that the documentation leaves undetermined for this input: every observed value is accepted
+    (the restriction is recorded in the report)."""
+
+    def __repr__(self):
+        return "Anything"
+
+
+ANY = Anything()
+
+
+class Either:
+    """A reference value that leaves a documented choice open: the observed cell must equal one of `options`."""
+
+    def __init__(self, *options):
+        self.options = options
+
+    def __repr__(self):
+        return "Either%r" % (self.options,)
+
+
+def ref_group_agg(meth: str, vals: Sequence[Any]) -> Any:
+    """Documented meaning of the group aggregates over the values of ONE group (Term.* docstrings):
+    sum 'sum of items', mean, min, max, count 'number of non-NA cells', size 'number of items'.
+    Missing values are skipped; min/max/mean of no values are missing.  The sum of a group without any non-null
+    value is 0 on Pandas/Polars and NULL in SQL (the documented destination convention, see C01): Either(0, None)."""
+    nn = [v for v in vals if v is not None]
+    if meth == "sum":
+        return sum(nn) if nn else Either(0, None)
+    if meth == "mean":
+        return (sum(nn) / float(len(nn))) if nn else None
+    if meth == "min":
+        return min(nn) if nn else None
+    if meth == "max":
+        return max(nn) if nn else None
+    if meth == "count":
+        return len(nn)
+    if meth in ("size", "_size"):
+        return len(vals)
+    raise ValueError("ref_group_agg: unknown aggregate %r" % (meth,))
+
+
+def cell_matches(expected: Any, observed: Any, tol: float = 1e-8) -> bool:
+    if isinstance(expected, Anything):
+        return True
+    if isinstance(expected, Either):
+        return any(C.values_equiv(o, observed, tol) for o in expected.options)
+    return C.values_equiv(expected, observed, tol)
+
+
+def rows_match(exp_rows: Sequence[Sequence[Any]], obs_rows: Sequence[Sequence[Any]]) -> Tuple[bool, str]:
+    """Multiset equality of rows where expected cells may be Either(...): maximum bipartite matching."""
+    if len(exp_rows) != len(obs_rows):
+        return False, "row counts differ: expected %d, observed %d" % (len(exp_rows), len(obs_rows))
+    n = len(exp_rows)
+    adj = [[j for j in range(n) if len(exp_rows[i]) == len(obs_rows[j]) and all(cell_matches(e, o) for e, o in zip(exp_rows[i], obs_rows[j]))] for i in range(n)]
+    match = [-1] * n
+
+    def aug(i, seen):
+        for j in adj[i]:
+            if j in seen:
+                continue
+            seen.add(j)
+            if match[j] < 0 or aug(match[j], seen):
+                match[j] = i
+                return True
+        return False
+
+    for i in range(n):
+        if not aug(i, set()):
+            return False, "no observed row matches expected row %r; expected %r observed %r" % (
+                tuple(exp_rows[i]),
+                [tuple(r) for r in exp_rows][:6],
+                sorted([tuple(r) for r in obs_rows], key=C.row_sort_key)[:6],
+            )
+    return True, ""
+
+
+def table_matches(exp: Tuple[Sequence[str], Sequence[Sequence[Any]]], obs: Tuple[Sequence[str], Sequence[Sequence[Any]]]) -> Tuple[bool, str]:
+    """Same column set (no duplicates) and same multiset of rows; expected cells may be Either(...)."""
+    ec, er = list(exp[0]), exp[1]
+    oc, orows = list(obs[0]), obs[1]
+    if len(set(oc)) != len(oc):
+        return False, "duplicate column names: %r" % (oc,)
+    if set(ec) != set(oc):
+        return False, "column sets differ: expected %r observed %r" % (ec, oc)
+    idx = [oc.index(c) for c in ec]
+    return rows_match(er, [tuple(r[i] for i in idx) for r in orows])
+
+
+def ref_windowed_group(cols: Sequence[str], rows: Sequence[Sequence[Any]], partition_by: Sequence[str], ops: Dict[str, Tuple[str, Optional[str]]]):
+    """Reference windowed extend with unordered group aggregates: every input row is kept and gets, for each
+    output column, the aggregate over the rows of its partition (null partition keys form a partition).
+    ops: {output column: (method, argument column or None)} -> (columns, rows)."""
+    cols = list(cols)
+    idx = [cols.index(c) for c in partition_by]
+    groups: Dict[Tuple, List[Sequence[Any]]] = {}
+    for r in rows:
+        groups.setdefault(key_of(r, idx), []).append(r)
+    new = [k for k in ops if k not in cols]
+    out_cols = cols + new
+    out = []
+    for r in rows:
+        g = groups[key_of(r, idx)]
+        vals = dict(zip(cols, r))
+        for k, (meth, arg) in ops.items():
+            vals[k] = ref_group_agg(meth, [q[cols.index(arg)] if arg is not None else 1 for q in g])
+        out.append(tuple(vals[c] for c in out_cols))
+    return out_cols, out
+
+
+# --------------------------------------------------------------------------------------------------
+# reference window evaluator (C27, C05)
+# --------------------------------------------------------------------------------------------------
+
+#: ordered window functions (need order_by) and unordered group aggregates usable in a windowed extend
+ORDERED_FNS = ("cumsum", "cummax", "cummin", "cumprod", "_row_number", "cumcount", "shift", "rank", "first", "last", "bfill", "ffill")
+GROUP_FNS = ("sum", "mean", "min", "max", "count", "size", "_size")
+
+
+def sort_partition(rows: List[Sequence[Any]], idx_order: Sequence[int], descending: Sequence[bool]) -> List[Sequence[Any]]:
+    """Rows of one partition in the declared order: order_by columns left to right, reversed columns descending.
+    Precondition (checked by the callers' generators): no nulls in order columns and no ties."""
+
+    def cmp(r1, r2):
+        for i, d in zip(idx_order, descending):
+            a, b = r1[i], r2[i]
+            if a == b:
+                continue
+            c = -1 if a < b else 1
+            return -c if d else c
+        return 0
+
+    return sorted(rows, key=functools.cmp_to_key(cmp))
+
+
+def ref_window_fn(fn: str, vals: Sequence[Any], arg: Any = None) -> List[Any]:
+    """Values of one window function for the rows of ONE partition, `vals` = the argument column in the declared
+    order.  Meanings from the Term.* docstrings (expr_rep.py):
+      cumsum/cumprod/cummax/cummin  cumulative sum/product/maximum/minimum of the items so far (missing items are
+                                    skipped: the running value so far is returned at a missing item; missing while
+                                    nothing was seen yet)
+      _row_number                   1, 2, 3, ... in the declared order
+      cumcount                      cumulative number of non-NA cells
+      shift(n)                      the item n rows earlier in the declared order (n < 0: later), missing outside
+      rank                          rank of the item among the items of its partition, 1 = smallest (only defined
+                                    here for partitions of distinct non-missing items)
+      first / last                  first / last item of the partition in the declared order
+      ffill / bfill                 missing items replaced by the previous / next non-missing item in the declared order
+      sum mean min max count size   group aggregates over the whole partition (ref_group_agg), same value on every row"""
+    n = len(vals)
+    if fn in GROUP_FNS:
+        a = ref_group_agg(fn, vals)
+        return [a] * n
+    if fn in ("cumsum", "cumprod", "cummax", "cummin"):
+        f = {"cumsum": lambda a, b: a + b, "cumprod": lambda a, b: a * b, "cummax": max, "cummin": min}[fn]
+        out, acc = [], None
+        for v in vals:
+            if v is not None:
+                acc = v if acc is None else f(acc, v)
+            out.append(acc)
+        return out
+    if fn == "_row_number":
+        return list(range(1, n + 1))
+    if fn == "cumcount":
+        out, c = [], 0
+        for v in vals:
+            c += 0 if v is None else 1
+            out.append(c)
+        return out
+    if fn == "shift":
+        k = 1 if arg is None else int(arg)
+        return [vals[i - k] if 0 <= i - k < n else None for i in range(n)]
+    if fn == "rank":
+        if any(v is None for v in vals) or len(set(vals)) != len(vals):
+            return [ANY] * n  # how ties / missing items are ranked is not documented
+        return [1 + sum(1 for w in vals if w < v) for v in vals]
+    if fn == "first":
+        return [vals[0]] * n if n else []
+    if fn == "last":
+        return [vals[-1]] * n if n else []
+    if fn == "ffill":
+        out, last = [], None
+        for v in vals:
+            if v is not None:
+                last = v
+            out.append(last)
+        return out
+    if fn == "bfill":
+        return list(reversed(ref_window_fn("ffill", list(reversed(vals)))))
+    raise ValueError("ref_window_fn: unknown function %r" % (fn,))
+
+
+def ref_window(
+    cols: Sequence[str],
+    rows: Sequence[Sequence[Any]],
+    partition_by: Sequence[str],
+    order_by: Sequence[str],
+    reverse: Sequence[str],
+    ops: Dict[str, Tuple[str, Optional[str], Any]],
+) -> Tuple[List[str], List[Tuple[Any, ...]]]:
+    """Reference windowed extend: partition the rows, sort each partition by order_by (reversed columns
+    descending), compute every op = (function, argument column or None, extra argument) -> (columns, rows).
+    Every input row is kept."""
+    cols = list(cols)
+    pidx = [cols.index(c) for c in partition_by]
+    oidx = [cols.index(c) for c in order_by]
+    desc = [c in set(reverse) for c in order_by]
+    parts: Dict[Tuple, List[int]] = {}
+    for i, r in enumerate(rows):
+        parts.setdefault(key_of(r, pidx), []).append(i)
+    new = [k for k in ops if k not in cols]
+    out_cols = cols + new
+    res: List[Dict[str, Any]] = [dict(zip(cols, r)) for r in rows]
+    for members in parts.values():
+        srt = sort_partition([tuple(rows[i]) + (i,) for i in members], oidx, desc) if oidx else [tuple(rows[i]) + (i,) for i in members]
+        for k, (fn, argc, extra) in ops.items():
+            vals = [r[cols.index(argc)] if argc is not None else 1 for r in srt]
+            for r, v in zip(srt, ref_window_fn(fn, vals, extra)):
+                res[r[-1]][k] = v
+    return out_cols, [tuple(d[c] for c in out_cols) for d in res]
+
+
+# --------------------------------------------------------------------------------------------------
+# contracted execution of a single-root pipeline on the three back ends (C27, C05)
+# --------------------------------------------------------------------------------------------------
+
+
+class ContractedBackends:
+    """Attaches run-time contracts (cbc.wrap) to the REAL step functions that execute the ROOT node of a pipeline:
+
+        Pandas   model._method_dispatch_table[<node>]   (PandasModelBase._extend_step / _project_step)
+        Polars   model._method_dispatch_table[<node>]   (PolarsModel._extend_step / _project_step)
+        SQLite   DBHandle.read_query
+
+    run(backend, ops, sql_key, tables, check) evaluates `ops` for real; the wrapper's postcondition materialises
+    what the real function returned (a Polars LazyFrame is collected) and applies check(obs) -> (ok, why).
+    Returns {'obs': ('ok', cols, rows) | ('raise', type, msg), 'ok': bool | None, 'why': str}."""
+
+    NODE_FN = {"ExtendNode": "_extend_step", "ProjectNode": "_project_step"}
+
+    def __init__(self, nodes: Sequence[str] = ("ExtendNode", "ProjectNode")):
+        self.nodes = tuple(nodes)
+        self.state: Dict[str, Any] = {"active": None}
+        self.attached = False
+
+    def name(self, be: str, node: str = "ExtendNode") -> str:
+        if be == "sqlite":
+            return "DBHandle.read_query[SQLite]"
+        return "%s.%s" % ("PandasModelBase" if be == "pandas" else "PolarsModel", self.NODE_FN[node])
+
+    def names(self) -> List[str]:
+        return sorted(set([self.name("sqlite")] + [self.name(be, n) for be in ("pandas", "polars") for n in self.nodes]))
+
+    def _post(self, call, outcome):
+        st = self.state
+        obs = outcome_raise(outcome.exception) if outcome.exception is not None else materialise(outcome.value)
+        st["obs"] = obs
+        if obs[0] != "ok":
+            st["verdict"] = (None, "%s: %s" % (obs[1], obs[2]))
+            return {"status": "raise", "detail": st["verdict"][1]}
+        st["verdict"] = st["check"](obs)
+        return None if st["verdict"][0] else {"status": "fail", "detail": st["verdict"][1]}
+
+    def ensure_attached(self):
+        if self.attached:
+            return
+        import data_algebra.data_model
+        import data_algebra.db_model
+        import data_algebra.polars_model  # noqa: F401
+        from cbc import wrap
+
+        models = {
+            "pandas": data_algebra.data_model.default_data_model(),
+            "polars": data_algebra.data_model.lookup_data_model_for_key("default_Polars_model"),
+        }
+        for be, model in models.items():
+            for node in self.nodes:
+
+                def when(call, be=be):
+                    return self.state.get("active") == be and call.kwargs.get("op") is self.state.get("ops")
+
+                wrap.attach_dispatch(model, node, wrap.contract(post=self._post, name=self.name(be, node), when=when))
+
+        def when_q(call):
+            return self.state.get("active") == "sqlite" and len(call.args) >= 2 and isinstance(call.args[1], str)
+
+        wrap.attach(
+            data_algebra.db_model.DBHandle,
+            "read_query",
+            wrap.contract(pre=lambda call: call.args[0].conn is not None, post=self._post, name=self.name("sqlite"), when=when_q),
+            factory=True,
+        )
+        self.attached = True
+
+    def run(self, be: str, ops, sql_key: str, tables: Dict[str, Tuple[Dict[str, List[Any]], Dict[str, str]]], check: Callable) -> Dict[str, Any]:
+        from cbc import wrap
+
+        self.ensure_attached()
+        st = self.state
+        st.update({"active": be, "ops": ops, "check": check, "obs": None, "verdict": None})
+        try:
+            if be == "pandas":
+                out = canon_out(C.run_pandas(ops, {n: C.to_pandas(t, s) for n, (t, s) in tables.items()}))
+            elif be == "polars":
+                out = canon_out(C.run_polars(ops, {n: C.to_polars(t, s) for n, (t, s) in tables.items()}))
+            else:
+                ses = SqliteSession.get()
+                sql = ses.sql_for(sql_key, ops)
+                if sql[0] != "ok":
+                    out = sql
+                else:
+                    for n, (t, s) in tables.items():
+                        ses.load(n, C.to_pandas(t, s))
+                    out = canon_out(ses.read(sql[1]))
+        finally:
+            st["active"] = None
+        wrap.take_failures()
+        if st["verdict"] is None:
+            if out[0] == "raise":  # raised before the function under contract was reached (e.g. in to_sql / the builder)
+                return {"obs": out, "ok": None, "why": "%s: %s" % (out[1], out[2])}
+            raise wrap.HarnessError("the contract on %s was not evaluated" % self.name(be, getattr(ops, "node_name", "ExtendNode") if be != "sqlite" else "ExtendNode"))
+        return {"obs": st["obs"], "ok": st["verdict"][0], "why": st["verdict"][1]}
